@@ -83,10 +83,10 @@ type Snap struct {
 
 // Model is the reference model of one replica.
 type Model struct {
-	Size       int64
-	Live       *Image
-	Snaps      map[string]*Snap // by disk name; live-chain snapshots only
-	Orphans    map[string]bool  // disk names left behind by reverts (files still on disk)
+	Size    int64
+	Live    *Image
+	Snaps   map[string]*Snap // by disk name; live-chain snapshots only
+	Orphans map[string]bool  // disk names left behind by reverts (files still on disk)
 	// OrphanSnaps: orphans whose image is still known: nothing has been merged into
 	// any snapshot since they left the live chain (a merge changes a snapshot the
 	// orphan may be built on). The product accepts a revert to them.
@@ -94,8 +94,8 @@ type Model struct {
 	// Short: snapshots that came back into the live chain (revert to an orphan)
 	// with the size the volume had when they left it - files outside the live
 	// chain are not grown with the volume
-	Short map[string]bool
-	Chain      []string         // live path: head first, base last (disk names)
+	Short      map[string]bool
+	Chain      []string // live path: head first, base last (disk names)
 	HeadNo     int
 	Counter    int64
 	Mode       string // INIT, RW, WO
